@@ -3517,6 +3517,9 @@ HashtableMid<KeyType,ValueType,HashFunctorType,SubclassType>::MoveToTable(const 
    if (e)
    {
       if (this == &toTable) return B_NO_ERROR;  // it's already here!
+      // If any iterator is registered with us, it may be pointing at (e), in which case RemoveAux() will save a copy of
+      // (e)'s key and value for it:  so we mustn't plunder the value before that copy has been made.
+      if (this->_iterList) return (toTable.PutAux(hash, moveMe, e->_value, NULL, NULL) != NULL) ? this->RemoveAux(e->_hash, moveMe, NULL) : B_OUT_OF_MEMORY;
       return (toTable.PutAux(hash, moveMe, HT_PlunderValue(e->_value), NULL, NULL) != NULL) ? this->RemoveAux(e->_hash, moveMe, NULL) : B_OUT_OF_MEMORY;
    }
    return B_DATA_NOT_FOUND;
@@ -3535,8 +3538,17 @@ HashtableMid<KeyType,ValueType,HashFunctorType,SubclassType>::SwapWithTable(cons
    {
            if (myE == hisE)   return B_NO_ERROR;  // swapping with myself is a no-op
       else if ((myE)&&(hisE)) {muscleSwap(myE->_value, hisE->_value); return B_NO_ERROR;}
-      else if (myE)           return (swapTable.PutAux(hash, swapMe, HT_PlunderValue( myE->_value), NULL, NULL) != NULL) ? this->RemoveAux(     myE->_hash, swapMe, NULL) : B_OUT_OF_MEMORY;
-      else                    return (    this->PutAux(hash, swapMe, HT_PlunderValue(hisE->_value), NULL, NULL) != NULL) ? swapTable.RemoveAux(hisE->_hash, swapMe, NULL) : B_OUT_OF_MEMORY;
+      else if (myE)
+      {
+         // as in MoveToTable():  an iterator pointing at the entry must get the un-plundered value
+         if (this->_iterList) return (swapTable.PutAux(hash, swapMe, myE->_value, NULL, NULL) != NULL) ? this->RemoveAux(myE->_hash, swapMe, NULL) : B_OUT_OF_MEMORY;
+         return (swapTable.PutAux(hash, swapMe, HT_PlunderValue( myE->_value), NULL, NULL) != NULL) ? this->RemoveAux(     myE->_hash, swapMe, NULL) : B_OUT_OF_MEMORY;
+      }
+      else
+      {
+         if (swapTable._iterList) return (this->PutAux(hash, swapMe, hisE->_value, NULL, NULL) != NULL) ? swapTable.RemoveAux(hisE->_hash, swapMe, NULL) : B_OUT_OF_MEMORY;
+         return (    this->PutAux(hash, swapMe, HT_PlunderValue(hisE->_value), NULL, NULL) != NULL) ? swapTable.RemoveAux(hisE->_hash, swapMe, NULL) : B_OUT_OF_MEMORY;
+      }
    }
    return B_DATA_NOT_FOUND;
 }
